@@ -418,8 +418,9 @@ chld_cb(EV_P_ ev_child *c, int UNUSED(revents))
 {
 	echsx_task_t t = c->data;
 	t->xc = c->rstatus;
+	/* the loop goes on for as long as somebody holds the other end
+	 * of our pipes, and for no longer than the job may take */
 	ev_child_stop(EV_A_ c);
-	ev_break(EV_A_ EVBREAK_ALL);
 	return;
 }
 
